@@ -57,6 +57,7 @@ struct frame_table {
 };
 inline frame_table g_frames;
 inline std::atomic<long> g_frame_allocs{0}, g_frame_deallocs{0};
+inline std::atomic<char *> g_last_frame{nullptr}; // address of the frame handed out last (single-thread sequences inspect it)
 
 // wraps a library storage policy: records every frame, forwards to the policy
 template <typename S> struct monitored : S {
@@ -67,6 +68,7 @@ template <typename S> struct monitored : S {
         void *q = S::alloc(n);
         g_frame_allocs.fetch_add(1, std::memory_order_relaxed);
         g_frames.add((char *)q, n);
+        g_last_frame.store((char *)q, std::memory_order_relaxed);
         return q;
     }
     static void dealloc(void *q, std::size_t n) {
@@ -328,6 +330,26 @@ inline void storage_sequences(const vf::opts &o, vf::report &R, uint64_t seqs) {
                 st_sequence<monitored<RB>>(r, [vp] { return std::make_unique<monitored<RB>>(*vp); }, 1, true, res, pname);
                 if (res.err.empty()) res.err = st_no_heap_after_warmup<monitored<RB>>([vp] { return std::make_unique<monitored<RB>>(*vp); }, (int)r.below(ST_NSIZES), pname);
                 if (res.err.empty() && r.chance(1, 2)) res.err = st_raw_walk<monitored<RB>>(r, [vp] { return std::make_unique<monitored<RB>>(*vp); }, pname, res.desc);
+                if (res.err.empty() && r.chance(1, 2)) {
+                    // between two coroutines (none alive) the user may do anything with the buffer - grow it, swap it, shrink it: the next
+                    // frame must live in the buffer as it is THEN
+                    monitored<RB> st(*vp);
+                    c19_ctx C;
+                    { cocls::future<int> f = st_start(st, C, 1, nullptr, 1 + (int)r.below(2)); if (f.wait() != 1) res.err = "wrong value"; }
+                    for (int k = 0; k < 3 && res.err.empty(); k++) {
+                        uint32_t how = r.below(3);
+                        if (how == 0) { Vec bigger(vp->size() * 2 + 512); vp->swap(bigger); }        // content relocated (old block freed)
+                        else if (how == 1) { vp->resize(vp->size() + 4096); }                         // grown by the user
+                        else { Vec fresh(vp->size() + 64); *vp = std::move(fresh); }                    // replaced
+                        int id = 2 + k;
+                        cocls::future<int> f = st_start(st, C, id, nullptr, (int)r.below(2) ? 0 : 3); // small frames: the storage itself need not resize
+                        char *fp = g_last_frame.load(std::memory_order_relaxed), *b = (char *)vp->data(), *e = b + vp->size() * sizeof(typename Vec::value_type);
+                        if (f.wait() != id) res.err = "wrong value";
+                        else if (fp < b || fp >= e) res.err = "the frame was not placed inside the buffer as it is now (stale content pointer)";
+                    }
+                    if (res.err.empty() && C.canary_bad.load()) res.err = "frame contents overwritten";
+                    res.desc += " + buffer relocated by the user between coroutines";
+                }
             };
             struct t8 { using type = std::vector<uint64_t>; }; struct t1 { using type = std::vector<char>; };
             if (r.chance(1, 2)) run_rb(t8{}); else { run_rb(t1{}); res.desc += " [vector<char>]"; }
